@@ -131,6 +131,10 @@ func leavesOf(t types.Type) []Leaf {
 	case *types.Struct:
 		for i := 0; i < u.NumFields(); i++ {
 			f := u.Field(i)
+			if arr, ok := f.Type().Underlying().(*types.Array); ok && arr.Len() > maxValueArray {
+				// large arrays embedded in (heap) structs live in their own region and have no leaves
+				continue
+			}
 			for _, l := range leavesOf(f.Type()) {
 				p := f.Name()
 				if l.path != "" {
@@ -185,9 +189,16 @@ func fieldRange(t types.Type, i int) (int, int) {
 	st := t.Underlying().(*types.Struct)
 	lo := 0
 	for k := 0; k < i; k++ {
-		lo += nLeaves(st.Field(k).Type())
+		lo += fieldLeaves(st.Field(k).Type())
 	}
-	return lo, lo + nLeaves(st.Field(i).Type())
+	return lo, lo + fieldLeaves(st.Field(i).Type())
+}
+
+func fieldLeaves(t types.Type) int {
+	if arr, ok := t.Underlying().(*types.Array); ok && arr.Len() > maxValueArray {
+		return 0
+	}
+	return nLeaves(t)
 }
 
 // ---------- addresses ----------
